@@ -68,12 +68,50 @@ RELATION = (
     "VBK/BTC best tips. Not compared: tips_ sets, blocks F has deallocated, outdated blocks, the finalized mark.")
 
 
-def build_script(histories, mode, save_every):
+def build_script(histories, mode, save_every, corr_every=0):
     sc = S.Script()
     for hno, (g, ops) in histories:
         S.emit_registry(sc, g)
-        S.emit_twin(sc, ops, mode, hno, save_every=save_every)
+        S.emit_twin(sc, ops, mode, hno, save_every=save_every, corr_every=corr_every)
     return sc
+
+
+def correspondence(ctx, model, sc, res, byno, stats):
+    """finalizeBlocks of the extracted model (coq/Store/FinalizeDefs.v) on the tree observed right before
+    AltBlockTree::finalizeBlocks() vs the tree observed right after. Returns [(history, pos, text)]."""
+    lines = []
+    expect = {}
+    for i, tag in sc.meta.items():
+        if tag[1] != "post":
+            continue
+        h, pos, pre_id = tag[0], tag[2], tag[3]
+        if res.get(i) is None or res.get(pre_id) is None or res[i] in ("DEAD",) or res[pre_id] in ("DEAD",):
+            continue
+        g = byno[h][0]
+        pre, post = S.parse_adump(res[pre_id]), S.parse_adump(res[i])
+        l1 = S.model_fin_line(g, pre, CFG["alt_maxreorg"], CFG["alt_preserve"])
+        l2 = S.model_fin_line(g, pre, CFG["alt_maxreorg"], CFG["alt_preserve"], reverse_tips=True)
+        lines.append("m%s %s" % (i, l1))
+        lines.append("r%s %s" % (i, l2))
+        expect[i] = (h, pos, S.impl_fin_view(g, pre, post))
+    if not lines:
+        return []
+    p = os.path.join(ctx.work, "model_fin.txt")
+    with open(p, "w") as f:
+        f.write("\n".join(lines) + "\n")
+    rc, mres, _, merr = vlib.run_lines([model], p, timeout=900)
+    if rc != 0:
+        ctx.broken.append("model-runner rc=%d %s" % (rc, merr[-200:]))
+    bad = []
+    for i, (h, pos, impl) in expect.items():
+        a, b = mres.get("m" + i), mres.get("r" + i)
+        if a != b:
+            stats["corr_order_dependent_skipped"] += 1     # tips_ iteration order matters (unsaved outdated forks)
+            continue
+        stats["corr_finalize_compared"] += 1
+        if a != impl:
+            bad.append((h, pos, "corr:Store.FinalizeDefs.finalizeBlocks model=%s impl=%s" % (a, impl)))
+    return bad
 
 
 def run_script(binary, sc, work, name):
@@ -206,6 +244,9 @@ def run(ctx):
         ctx.broken.append("harness-build: " + hlog[-300:])
         return
     binary = hs["h_store"]
+    okm, model, mlog = vlib.build_model("Store")
+    if not okm:
+        ctx.broken.append("model-build: " + mlog[-300:])
     stats = Counter()
     t0 = time.time()
 
@@ -266,7 +307,7 @@ def run(ctx):
             g, ops = S.gen_twin(ctx.rng.fork(), CFG, steps)
             hs_.append((hno, (g, ops)))
             stats["steps"] += len(ops)
-        sc = build_script(hs_, mode, save_every)
+        sc = build_script(hs_, mode, save_every, corr_every=(2 if mode == "fin" else 0))
         rc, res, orc, err = run_script(binary, sc, ctx.work, "twin_%s_%d.txt" % (mode, save_every))
         if rc != 0:
             ctx.broken.append("runner: h_store rc=%d %s" % (rc, err[-300:]))
@@ -274,6 +315,13 @@ def run(ctx):
         if mism:
             ctx.broken.append("generator/registry out of step: %s" % (mism[:2],))
         fails = failures(sc, res, orc, stats)
+        if okm and mode == "fin":
+            # model/implementation disagreement on finalizeBlocks: the model is not the specification, so look for a
+            # concrete failing input first (the twin oracle of the same history), otherwise name the correspondence
+            cbad = correspondence(ctx, model, sc, res, dict(hs_), stats)
+            for h, pos, text in cbad[:3]:
+                if h not in fails:
+                    ctx.broken.append(text[:600])
         for h, text in dangling_hits(sc, orc):
             stats["histories_with_dangling_backpointers"] += 1
             g, ops = dict(hs_)[h]
